@@ -54,10 +54,10 @@ def run(tier, out):
         n_models, n_calls = (150, 400) if tier == "quick" else (3000, 6000)
         events, _ = numcheck.random_events(ns, range(base, base + n_models), theorems=["usage"])
         # the same on systems edited in place by list edits that only change a multiplicity or an order (the same job, step
-        # or device listed once more, steps reversed) and by edits of durations and traffic
+        # or device listed once more, steps reversed) and by edits of request durations, step durations and traffic
         n_hist = 30 if tier == "quick" else 600
         edited = numcheck.edited_events(ns, range(base + 60000, base + 60000 + n_hist), 3, theorems=["usage"],
-                                        kinds=("dupjob", "dupstep", "reorder", "dupdev", "dur", "starts"))
+                                        kinds=("dupjob", "dupstep", "reorder", "dupdev", "dur", "starts", "t", "t"))
         for e in edited:
             e["tid"] += 4 * 10 ** 6
         events += edited
